@@ -42,6 +42,8 @@ CLAIMS = {
          "yaml.v2 / encoding/json behaviour is assumed for the proofs and only bounded-checked.", "8 C16"),
  "C08": ("other", "Proved for all inputs: jsonSet.patch and jsonMultiset.patch (hash-keyed maps, five loops each, with invariants) never panic, return valid documents, satisfy the strict leaf semantics for list paths, and the shared leaf function rejects a set/multiset hunk on a non-array (repaired defect); newPathSetKeys returns a valid key object. Set / bag semantics independent of member order is the contract of the wrapper verifSetSemantics (reference: remove exactly the listed members, fail when absent or not present often enough, add the listed ones), evaluated on all (a, b, target) triples of arrays over {1,2,3} up to length 3 under SET and MULTISET; verifSetPatchNonArray and verifKeyedMember cover non-array targets and keyed members. The ignored nested failure of keyed members is reported as KNOWN-FINDING.",
          "membership is decided by hash codes (not modelled); the whole-view membership postcondition is bounded only.", "8 C08"),
+ "C14": ("other", "Effect model (ghost world: stdout, stderr line count, last file written, exit status; os.Exit ends the path; flag variables are read-only inputs). Proved for all inputs, for every function of both binaries (29 functions incl. the -v2=false code paths): stdout or the -o file receives exactly the string the library call returned and nothing else; exit is 2 with one log line on every error path incl. a failed write of the -o file (repaired defect), otherwise 1 iff haveDiff else 0; patch and translate modes exit 0 or 2; haveDiff is 'rendering is not the empty rendering of the format'; the flag-to-option translation of parseMetadata matches the README table (-set, -mset, -f merge, rejected -precision combinations); no function of the commands can panic. The process-level behaviour (both binaries built from the working tree and run on document pairs x 9 flag sets x {file, stdin, -o, unwritable -o, -p round trip}; malformed inputs) is evaluated by the wrappers verifCLICheck / verifCLIMalformed against the library called in-process.",
+         "assumed contracts for flag, os, ioutil, fmt, log; calls into the library are external for package main (their results are unconstrained); -port and the GitHub-action entry are trusted (outside the subset); process runs are bounded.", "8 C14"),
 }
 
 def main():
